@@ -2,6 +2,7 @@
   C03 — Diagnostics are exactly what SPL prescribes, and point at the culprit.
   Property theorems only.
 -/
+import SplVerif.Lemmas.Cursor
 import SplVerif.Model.Table
 import SplVerif.Spec.Typing
 import SplVerif.Spec.Grammar
@@ -118,5 +119,17 @@ example : specVerdict "type m = array [2] of array [3] of int; proc f(ref a: m, 
   decide +kernel
 example : modelDiagnostics "type m = array [2] of array [3] of int; proc f(ref a: m, i: int) { a[1][i] := i + 1; } proc main() { var x: m; if (1 + 2) f(x, 0); }" = some 1 := by
   decide +kernel
+
+
+/-- **Every published range lies inside the document.**  Whatever byte range a diagnostic carries (also one that ends
+    inside a multi-byte character or beyond the text), both positions of the published LSP range are positions of
+    character boundaries of the document's text: `as_position` never invents a line or a column that the text does
+    not have. -/
+theorem published_range_inside (r : Range) (text : List Char) :
+    ∃ a b a' b', text = a ++ b ∧ text = a' ++ b' ∧
+      Feat.asPosRange r text = (asPosition (utf8Len a) text, asPosition (utf8Len a') text) := by
+  obtain ⟨a, b, e1, h1⟩ := CursorLemmas.asPosition_boundary r.lo text
+  obtain ⟨a', b', e2, h2⟩ := CursorLemmas.asPosition_boundary r.hi text
+  exact ⟨a, b, a', b', e1, e2, by simp [Feat.asPosRange, h1, h2]⟩
 
 end Spl.C03
